@@ -74,6 +74,16 @@ type KnownSet map[string]bool
 // Search executes run indices worker, worker+workers, ... until the budget
 // or maxRuns is exhausted or a failure that is not a known finding occurs.
 func Search(prop, tier string, seed uint64, worker, workers int, budget time.Duration, maxRuns int, known KnownSet) *Summary {
+	return SearchFrom(prop, tier, seed, worker, workers, budget, maxRuns, known, 0, "", nil)
+}
+
+// SearchFrom is Search starting at run index start (which must be congruent
+// to worker modulo workers). If progress is not empty, the index about to be
+// executed is written there before every run and flush is called with the
+// summary so far now and then, so that a worker killed by the address-space
+// limit (corruption trials can make the code under test allocate gigabytes)
+// can be resumed after the fatal index.
+func SearchFrom(prop, tier string, seed uint64, worker, workers int, budget time.Duration, maxRuns int, known KnownSet, startIdx int, progress string, flush func(*Summary)) *Summary {
 	f := core.Lookup(prop)
 	if f == nil {
 		fmt.Fprintf(os.Stderr, "no world for %s\n", prop)
@@ -83,12 +93,28 @@ func Search(prop, tier string, seed uint64, worker, workers int, budget time.Dur
 	s := &Summary{Inconclusive: map[string]int{}, Known: map[string]int{}, Reach: map[string]int{}, Faults: map[string]int{}, Classes: map[string]int{}, Outcomes: map[string]int{}}
 	start := time.Now()
 	seen := map[string]bool{}
-	for idx := worker; ; idx += workers {
+	if startIdx < worker {
+		startIdx = worker
+	}
+	lastFlush := time.Now()
+	for idx := startIdx; ; idx += workers {
 		if maxRuns > 0 && idx >= maxRuns {
 			break
 		}
 		if time.Since(start) > budget {
 			break
+		}
+		if progress != "" {
+			os.WriteFile(progress, []byte(fmt.Sprint(idx)), 0o644)
+			if flush != nil && time.Since(lastFlush) > 500*time.Millisecond {
+				s.Hashes = s.Hashes[:0]
+				for h := range seen {
+					s.Hashes = append(s.Hashes, h)
+				}
+				s.WallS = time.Since(start).Seconds()
+				flush(s)
+				lastFlush = time.Now()
+			}
 		}
 		rs := RunSeed(seed, prop, idx)
 		tape := rt.NewTape(rs)
@@ -119,6 +145,7 @@ func Search(prop, tier string, seed uint64, worker, workers int, budget time.Dur
 			break
 		}
 	}
+	s.Hashes = s.Hashes[:0]
 	for h := range seen {
 		s.Hashes = append(s.Hashes, h)
 	}
@@ -162,9 +189,8 @@ func Replay(rec *FailRec, trace bool) *core.Result {
 
 // Hashes runs indices [from, to) and returns the event-log hash and verdict
 // of each (determinism self-test).
-func Hashes(prop, tier string, seed uint64, from, to int) []string {
+func Hashes(prop, tier string, seed uint64, from, to int, emit func(string)) {
 	w := core.Lookup(prop)(tier)
-	var out []string
 	for idx := from; idx < to; idx++ {
 		res := w.Run(rt.NewTape(RunSeed(seed, prop, idx)), false)
 		v := "ok"
@@ -174,9 +200,8 @@ func Hashes(prop, tier string, seed uint64, from, to int) []string {
 		if res.Discard {
 			v = "discard"
 		}
-		out = append(out, fmt.Sprintf("%d %s %s %s", idx, res.Hash, res.Outcome, v))
+		emit(fmt.Sprintf("%d %s %s %s", idx, res.Hash, res.Outcome, v))
 	}
-	return out
 }
 
 func clone(m map[string][]uint32) map[string][]uint32 {
